@@ -1885,11 +1885,17 @@ class RedunBackendDb(RedunBackend):
                         child_call_hashes,
                     )
                 }
-                for i, child_call_hash in enumerate(child_call_hashes):
-                    if child_call_hash in recorded_child_hashes:
-                        session.add(
-                            CallEdge(parent_id=call_hash, child_id=child_call_hash, call_order=i)
-                        )
+                # Number the edges that are actually recorded consecutively, so that the order
+                # survives a transfer between repositories (which renumbers from the position).
+                recorded_children = [
+                    child_call_hash
+                    for child_call_hash in child_call_hashes
+                    if child_call_hash in recorded_child_hashes
+                ]
+                for i, child_call_hash in enumerate(recorded_children):
+                    session.add(
+                        CallEdge(parent_id=call_hash, child_id=child_call_hash, call_order=i)
+                    )
 
                 self._record_args(call_hash, expr_args, eval_args)
 
